@@ -2,6 +2,7 @@
 from __future__ import annotations
 
 import io
+import itertools
 import json
 import random
 import struct
@@ -90,7 +91,7 @@ IMPORTS_CONT = ['Coq.NArith.NArith', 'Coq.ZArith.ZArith', 'Coq.Lists.List', 'Coq
                 'SV.Fmt.VtfContainer', 'SV.Fmt.VtfWholeFile', 'SV.Gen.VtfContainer_gen']
 IMPORTS_ACCESS = ['Coq.ZArith.ZArith', 'Coq.Lists.List', 'Coq.Strings.String', 'Coq.Bool.Bool', 'SV.Fmt.VtfLayout', 'SV.Fmt.VtfAccess',
                   'SV.Gen.VtfLayout_gen', 'SV.Gen.VtfAccess_gen']
-IMPORTS_FRAME = ['Coq.Lists.List', 'Coq.Strings.String', 'Coq.Bool.Bool', 'SV.Fmt.VtfFrameSM', 'SV.Gen.VtfFrameSM_gen']
+IMPORTS_FRAME = ['Coq.Lists.List', 'Coq.Strings.String', 'Coq.Bool.Bool', 'SV.Fmt.VtfFrameSM', 'SV.Fmt.VtfFrameRaise', 'SV.Gen.VtfFrameSM_gen']
 
 # format (lower case) -> (specification of load-after-save, canonical stored form)
 SPECS = {
@@ -1714,6 +1715,21 @@ FRAME_OBS = {
     'frame_chain_configuration_ok': 'chain_ok gen_chaincfg',
 }
 
+MUTATORS = ['load', 'clear', 'fill', 'copy_from', 'rescale_from', '__setitem__']
+
+
+def frame_obligations(info: dict) -> dict[str, str]:
+    """FRAME_OBS plus one named boolean per method of Frame in the census of exits by exception (Gen/VtfFrameSM_gen.v,
+    gen_raise_tables): at every explicit raise / call that can raise, nothing the frame shows has been changed yet."""
+    obs = dict(FRAME_OBS)
+    names = list(MUTATORS) + [n for n in info.get('raise_tables', {}) if n not in MUTATORS]
+    for n in names:
+        obs[f'frame_{n.strip("_")}_has_changed_nothing_the_frame_shows_wherever_it_can_raise'] = f'method_raises_cleanly gen_raise_tables "{n}"'
+    obs['every_frame_method_keeps_the_file_source_and_the_pixels_until_nothing_can_raise_any_more'] = \
+        '(raise_tables_ok gen_raise_tables && negb (Nat.eqb (List.length gen_raise_tables) 0))%bool'
+    return obs
+
+
 PRE_FRAME = """Import ListNotations. Open Scope nat_scope. Open Scope list_scope.
 Inductive sym := SFile (m : nat) | SNew (k : nat) | SBlank (m : nat) | SScale (m : nat) (s : sym) | SMod (s : sym).
 Fixpoint ser (s : sym) : list nat :=
@@ -1772,6 +1788,203 @@ def history_base(seed: int) -> tuple[bytes, int, list[bytes]]:
     return buf.getvalue(), n, [bytes(v.get(mipmap=m)._data) for m in range(n)]
 
 
+# ---- calls that must be REJECTED (round 5): the caller catches the exception and carries on
+REJECTS = ['copy_short', 'copy_long', 'copy_rgb_without_format', 'copy_frame_of_other_size', 'copy_format_without_decoder',
+           'copy_not_a_buffer', 'rescale_from_unrelated_size', 'setitem_out_of_range', 'getitem_out_of_range',
+           'setitem_three_values', 'fill_out_of_range', 'self_copy']
+VTF_REJECTS = ['save_bad_version', 'save_stream_fails', 'get_bad_key', 'volumetric_as_7_1']
+ACCEPTED_NOOPS = {'self_copy'}       # not rejected, but must not change anything either
+
+
+class _NotRejected(Exception):
+    pass
+
+
+class _FailingStream(io.BytesIO):
+    """write() fails once `limit` bytes were written (disk full)"""
+    def __init__(self, limit: int) -> None:
+        super().__init__()
+        self.limit = limit
+
+    def write(self, b):
+        if self.tell() + len(b) > self.limit:
+            raise OSError(28, 'No space left on device')
+        return super().write(b)
+
+
+def _do_reject(v, fr, m: int, which: str) -> None:
+    from srctools.vtf import VTF, ImageFormats
+    w, h = fr.width, fr.height
+    other = VTF(4 * w, 4 * h, fmt=ImageFormats.RGBA8888, thumb_fmt=ImageFormats.NONE).get()
+    other.fill(9, 8, 7, 6)
+    calls = {
+        'copy_short': (lambda: fr.copy_from(bytes(4 * w * h - 4)), (ValueError, BufferError)),
+        'copy_long': (lambda: fr.copy_from(bytes(4 * w * h + 4)), (ValueError, BufferError)),
+        'copy_rgb_without_format': (lambda: fr.copy_from(bytes([7]) * (3 * w * h)), (ValueError, BufferError)),
+        'copy_frame_of_other_size': (lambda: fr.copy_from(other), (ValueError,)),
+        'copy_format_without_decoder': (lambda: fr.copy_from(bytes([7]) * (8 * w * h), ImageFormats.RGBA16161616), (NotImplementedError,)),
+        'copy_not_a_buffer': (lambda: fr.copy_from(12345), (TypeError,)),
+        'rescale_from_unrelated_size': (lambda: fr.rescale_from(other), (ValueError,)),
+        'setitem_out_of_range': (lambda: fr.__setitem__((w, 0), (1, 2, 3, 4)), (IndexError,)),
+        'getitem_out_of_range': (lambda: fr[0, h], (IndexError,)),
+        'setitem_three_values': (lambda: fr.__setitem__((0, 0), (1, 2, 3)), (ValueError, TypeError)),
+        'fill_out_of_range': (lambda: fr.fill(256, 0, 0, 255), (OverflowError, ValueError)),
+        'self_copy': (lambda: fr.copy_from(fr), ()),
+    }
+    fn, excs = calls[which]
+    try:
+        fn()
+    except excs:
+        return
+    if which not in ACCEPTED_NOOPS:
+        raise _NotRejected(which)
+
+
+def _do_vtf_reject(v, which: str) -> None:
+    try:
+        if which == 'save_bad_version':
+            v.save(io.BytesIO(), version=(7, 9))
+        elif which == 'save_stream_fails':
+            v.save(_FailingStream(200))
+        elif which == 'get_bad_key':
+            v.get(mipmap=99)
+        elif which == 'volumetric_as_7_1':
+            old = v.depth
+            v.depth = 2
+            try:
+                v.save(io.BytesIO(), version=(7, 1))
+            finally:
+                v.depth = old
+    except (ValueError, OSError, KeyError):
+        return
+    raise _NotRejected(which)
+
+
+def reject_alternatives(ops: list[list]):
+    """What a rejected call may amount to: nothing, or what an explicit load() of the frame does (every reading access
+    does that: a cleared frame gets its blank pixels); a save() that fails half-way may have run compute_mipmaps()."""
+    idx = [i for i, op in enumerate(ops) if op[0] == 'reject']
+    for choice in itertools.product((0, 1), repeat=len(idx)):
+        pick = dict(zip(idx, choice))
+        out: list[list] = []
+        for i, op in enumerate(ops):
+            if op[0] != 'reject':
+                out.append(op)
+            elif pick[i]:
+                out.append(['compute'] if op[2] in VTF_REJECTS else ['load', op[1]])
+        yield out
+
+
+def gen_reject_history(rng: random.Random, n: int) -> list[list]:
+    """a random history without __exit__, with one or two rejected calls in it (a failing save() only as the last operation)"""
+    ops = [op for op in gen_history(rng, n) if op[0] != 'exit']
+    for _ in range(rng.choice([1, 1, 2])):
+        which = rng.choice(REJECTS + REJECTS + VTF_REJECTS)
+        if which in VTF_REJECTS:
+            ops.append(['reject', 0, which])
+        else:
+            ops.insert(rng.randrange(len(ops) + 1), ['reject', rng.randrange(n), which])
+    vt = [op for op in ops if op[0] == 'reject' and op[2] in VTF_REJECTS]
+    return [op for op in ops if op not in vt] + vt
+
+
+def reject_view_case(seed: int, pre: str, m: int, which: str) -> list[tuple[str, str]]:
+    """One frame of a lazily read file in the state `pre`, one rejected call, then what the frame SHOWS."""
+    from srctools.vtf import VTF
+    base, n, levels = history_base(seed)
+    m = min(m, n - 1)
+    v = VTF.read(io.BytesIO(base))
+    fr = v.get(mipmap=m)
+    want = levels[m]
+    if pre == 'loaded':
+        fr.load()
+    elif pre == 'cleared':
+        fr.clear()
+        want = bytes((0, 0, 0, 255)) * (fr.width * fr.height)
+    elif pre == 'rescaled' and m >= 1:
+        fr.rescale_from(v.get(mipmap=m - 1))
+    what = f'lazy read of a {HIST_W}x{HIST_H} file, level {m} {pre}, then the rejected call {which}'
+    try:
+        if which in VTF_REJECTS:
+            _do_vtf_reject(v, which)
+        else:
+            _do_reject(v, fr, m, which)
+    except _NotRejected:
+        return [(f'call-that-must-be-rejected-is-accepted-{which}', what + ': no exception')]
+    except Exception as e:     # noqa: BLE001
+        return [(f'rejected-call-raises-{type(e).__name__}-{which}', what + f': unexpected {type(e).__name__}: {e}')]
+    try:
+        got = bytes(memoryview(fr))
+    except Exception as e:     # noqa: BLE001
+        return [(f'rejected-call-breaks-the-frame-{which}', what + f': the frame can no longer be read: {type(e).__name__}: {e}')]
+    if pre == 'cleared' and which in ('save_stream_fails', 'volumetric_as_7_1', 'save_bad_version'):
+        return []       # a save() that fails half-way may have regenerated the cleared level (compute_mipmaps), as a complete one does
+    if got != want:
+        black = got == bytes((0, 0, 0, 255)) * (fr.width * fr.height)
+        return [(f'rejected-call-changes-the-pixels-shown-{which}', what + ': the frame shows other pixels afterwards'
+                 + (' (opaque black)' if black else ''))]
+    return []
+
+
+class _FlakyStream(io.BytesIO):
+    """fails exactly once, in the given way, the next time a frame is fetched"""
+    mode = ''
+
+    def seek(self, *a):
+        if self.mode == 'seek':
+            self.mode = ''
+            raise OSError(5, 'Input/output error')
+        return super().seek(*a)
+
+    def read(self, *a):
+        if self.mode == 'read':
+            self.mode = ''
+            raise OSError(5, 'Input/output error')
+        if self.mode == 'short':
+            self.mode = ''
+            return super().read(*a)[:-3]
+        return super().read(*a)
+
+
+def failed_load_case(seed: int, mode: str, m: int, then: str) -> list[tuple[str, str]]:
+    """The stream fails ONCE while level m is fetched (by load() / pixel access / save()); the caller catches the error;
+    afterwards the frame must either raise again or show the file's pixels, and a save must store them."""
+    from srctools.vtf import VTF
+    base, n, levels = history_base(seed)
+    m = min(m, n - 1)
+    stream = _FlakyStream(base)
+    v = VTF.read(stream)
+    fr = v.get(mipmap=m)
+    what = f'lazy read of a {HIST_W}x{HIST_H} file, the stream fails once ({mode}) while level {m} is fetched by {then}'
+    stream.mode = mode
+    try:
+        if then == 'load':
+            fr.load()
+        elif then == 'getitem':
+            fr[0, 0]
+        else:
+            v.save(io.BytesIO())                   # save() walks the smallest level first: the failure hits that one
+    except (OSError, BufferError, ValueError):
+        pass
+    else:
+        if stream.mode == '':
+            return [(f'failed-load-not-reported-{mode}', what + ': no exception although the stream failed')]
+    stream.mode = ''
+    try:
+        out = io.BytesIO()
+        v.save(out)
+        back = VTF.read(io.BytesIO(out.getvalue()))
+        back.load()
+        got = [bytes(back.get(mipmap=k)._data) for k in range(n)]
+    except Exception as e:     # noqa: BLE001
+        return [(f'failed-load-then-save-raises-{type(e).__name__}', what + f', then save: {type(e).__name__}: {e}')]
+    if got != levels:
+        k = next(i for i in range(n) if got[i] != levels[i])
+        return [('failed-load-leaves-the-frame-without-its-file-source', what + f'; the caller catches the error; a later save() (the stream works '
+                 f'again) stores other pixels than the file has for level {k}' + (' (opaque black)' if got[k] == bytes((0, 0, 0, 255)) * (len(got[k]) // 4) else ''))]
+    return []
+
+
 def run_history_impl(base: bytes, n: int, ops: list[list]) -> list[bytes]:
     """The implementation: lazy read, operations, save, read back; pixels of levels 0..n-1 of the new file."""
     from srctools.vtf import VTF
@@ -1787,7 +2000,13 @@ def run_history_impl(base: bytes, n: int, ops: list[list]) -> list[bytes]:
         if kind == 'clear_after':           # VTF.clear_mipmaps(after=a): the levels BELOW level a (index > a) are cleared, level a is kept
             v.clear_mipmaps(after=op[1])
             continue
+        if kind == 'reject' and op[2] in VTF_REJECTS:
+            _do_vtf_reject(v, op[2])
+            continue
         fr = v.get(mipmap=op[1])
+        if kind == 'reject':
+            _do_reject(v, fr, op[1], op[2])
+            continue
         if kind == 'load':
             fr.load()
         elif kind == 'clear':
@@ -1898,19 +2117,38 @@ HIST_KEYS = {'file': 'frame-history-level-with-file-source-not-written-from-the-
 
 
 def check_history(base: bytes, n: int, levels: list[bytes], ops: list[list]) -> list[tuple[str, str]]:
+    rejects = [op[2] for op in ops if op[0] == 'reject']
     try:
         got = run_history_impl(base, n, ops)
+    except _NotRejected as e:
+        return [(f'call-that-must-be-rejected-is-accepted-{e}', f'lazy read, {ops}: the call {e} did not raise')]
     except Exception as e:
+        if rejects:
+            return [(f'rejected-call-then-save-raises-{type(e).__name__}-{rejects[0]}', f'lazy read, {ops}, save: {type(e).__name__}: {e}')]
         return [(f'frame-history-raises-{type(e).__name__}', f'lazy read, {ops}, save: {type(e).__name__}: {e}')]
-    probs = []
-    for m, ((why, exp), g) in enumerate(zip(spec_history(levels, ops), got)):
-        if why == 'unjudged':
-            break
-        if g != exp:
-            probs.append((HIST_KEYS[why], f'lazy read of a {HIST_W}x{HIST_H} file, then {ops}, then save: level {m} must be written from '
-                                          f'"{why}" but other pixels were written'))
-            break
-    return probs
+    first = None
+    for alt in reject_alternatives(ops):
+        probs = []
+        for m, ((why, exp), g) in enumerate(zip(spec_history(levels, alt), got)):
+            if why == 'unjudged':
+                break
+            if g != exp:
+                black = g == bytes((0, 0, 0, 255)) * (len(g) // 4)
+                if rejects:
+                    culprit = ([op[2] for op in ops if op[0] == 'reject' and op[1] == m and op[2] not in VTF_REJECTS] or rejects)[0]
+                    probs.append((f'rejected-call-changes-what-is-saved-{culprit}',
+                                  f'lazy read of a {HIST_W}x{HIST_H} file, then {ops} (every "reject" is a call that raises and whose exception is '
+                                  f'caught), then save: level {m} must be written from "{why}" as if the rejected calls had not been made (or had '
+                                  f'only loaded the frame), but other pixels were written' + (' (opaque black)' if black else '')))
+                else:
+                    probs.append((HIST_KEYS[why], f'lazy read of a {HIST_W}x{HIST_H} file, then {ops}, then save: level {m} must be written from '
+                                                  f'"{why}" but other pixels were written'))
+                break
+        if not probs:
+            return []
+        if first is None:
+            first = probs
+    return first or []
 
 
 def _coq_ops(ops: list[list]) -> str:
@@ -2015,6 +2253,65 @@ def corr_frames(ck: Ck, frame_ok: bool) -> None:
     if bad:
         ck.tie_broken.append('correspondence frame histories vs generated effect tables')
         ck.extra['frame_history_disagreement'] = bad[:5]
+
+
+def search_rejected(ck: Ck) -> None:
+    """Error paths (round 5): calls that a Frame / VTF must reject, made on frames of a lazily read file in every state
+    (still in the file, loaded, cleared, rescaled while still in the file), the exception caught, then (a) what the frame
+    shows, (b) what save() stores, inside random histories of the other operations; and streams that fail once."""
+    base, n, levels = history_base(ck.seed)
+    reported: set[str] = set()
+    for pre in ('lazy', 'loaded', 'cleared', 'rescaled'):
+        for m in sorted({0, 1, n - 1}):
+            for which in REJECTS + VTF_REJECTS:
+                ck.count('rejected_call_views')
+                ck.hist('rejected_call', which)
+                ck.hist('rejected_call_frame_state', pre)
+                ck.seen(('rejview', pre, m, which))
+                for key, what in reject_view_case(ck.seed, pre, m, which):
+                    if key not in reported:
+                        reported.add(key)
+                        ck.violation(key, what, {'reject_view': [ck.seed, pre, m, which]})
+    for mode in ('seek', 'read', 'short'):
+        for m in (0, 1):
+            for then in ('load', 'getitem', 'save'):
+                ck.count('failing_stream_cases')
+                ck.seen(('flaky', mode, m, then))
+                for key, what in failed_load_case(ck.seed, mode, m, then):
+                    if key not in reported:
+                        reported.add(key)
+                        ck.violation(key, what, {'failed_load': [ck.seed, mode, m, then]})
+    fixed: list[list[list]] = []
+    for which in REJECTS:
+        for m in (0, 1):
+            fixed += [[['reject', m, which]], [['clear', m], ['reject', m, which]], [['load', m], ['reject', m, which]],
+                      [['reject', m, which], ['clear', min(m + 1, n - 1)]]]
+        fixed.append([['rescale', 1], ['reject', 1, which]])
+    for which in VTF_REJECTS:
+        fixed += [[['reject', 0, which]], [['clear', 1], ['reject', 0, which]], [['copy', 0, 0, 5], ['clear_after', 0], ['reject', 0, which]]]
+    cases = fixed + [gen_reject_history(ck.rng, n) for _ in range(ck.budget(150, 600))]
+    found: dict[str, tuple[list, str]] = {}
+    for ops in cases:
+        ck.count('rejected_call_histories')
+        ck.hist('rejected_call_history_length', len(ops))
+        for op in ops:
+            if op[0] == 'reject':
+                ck.hist('rejected_call', op[2])
+        ck.seen(('rejhist', json.dumps(ops)))
+        for key, what in check_history(base, n, levels, ops):
+            found.setdefault(key, (ops, what))
+    for key, (ops, what) in found.items():
+        small = list(ops)
+        i = 0
+        while i < len(small):
+            cand = small[:i] + small[i + 1:]
+            if any(k == key for k, _ in check_history(base, n, levels, cand)):
+                small = cand
+            else:
+                i += 1
+        what2 = next((w for k, w in check_history(base, n, levels, small) if k == key), what)
+        ck.violation(key, what2, {'history': small, 'seed': ck.seed, 'how': 'checks.c15.check_history(*history_base(seed), history)'})
+    ck.sample({'rejected_call_history': cases[len(fixed)]})
 
 
 # ================================================================================================ main
@@ -2153,7 +2450,7 @@ def run(ck: Ck) -> None:
             'nearest_filters_use_the_same_texel_offsets_as_bilinear': 'nearest_offsets_same_as_bilinear',
         })
         # the four groups of instance obligations run in the background (two coqc each) while Print Assumptions runs here
-        groups = [_Deferred(ck, IMPORTS, obs, 'inst'), _Deferred(ck, IMPORTS_FRAME, FRAME_OBS, 'inst_frame'),
+        groups = [_Deferred(ck, IMPORTS, obs, 'inst'), _Deferred(ck, IMPORTS_FRAME, frame_obligations(ck.extra['translated']['VtfFrameSM_gen']), 'inst_frame'),
                   _Deferred(ck, IMPORTS_CONT, CONT_OBS, 'inst_cont'),
                   _Deferred(ck, IMPORTS_ACCESS, access_obligations(ck.extra['translated']['VtfAccess_gen']), 'inst_access')]
         ck.theorems('Props/C15.v')
@@ -2162,6 +2459,7 @@ def run(ck: Ck) -> None:
         _stage(ck, 'container-correspondence', corr_container, alarm=False)     # waits for coqc: no alarm, exceptions only
         codecs_done()
     _stage(ck, 'frame-histories', corr_frames, bool(built), alarm=False)
+    _stage(ck, 'rejected-call-search', search_rejected)
     _stage(ck, 'codec-search', search_codecs)
     _stage(ck, 'bounds-search', search_bounds)
     _stage(ck, 'pixel-path-search', search_paths)
@@ -2204,6 +2502,11 @@ def run(ck: Ck) -> None:
             ck.explain('instance:save_records')
             ck.explain('instance:example_')
             ck.explain('correspondence:container')
+        if k.startswith(('rejected-call-', 'failed-load-', 'call-that-must-be-rejected')):
+            ck.explain('instance:frame_')
+            ck.explain('instance:every_frame_method_keeps')
+            ck.explain('translate:VtfFrameSM_gen')
+            ck.explain('correspondence:frame-histories')
         if k.startswith(('frame-history-', 'lazy-resave-')):
             ck.explain('instance:frame_')
             ck.explain('instance:compute_mipmaps_')
@@ -2287,6 +2590,14 @@ def replay(data: dict) -> int:
         return 0
     if 'full_chain' in r:
         print(full_chain(*r['full_chain']))
+        return 0
+    if 'reject_view' in r:
+        for k, w in reject_view_case(*r['reject_view']):
+            print(k, '::', w)
+        return 0
+    if 'failed_load' in r:
+        for k, w in failed_load_case(*r['failed_load']):
+            print(k, '::', w)
         return 0
     if 'history' in r:
         base, n, levels = history_base(r['seed'])
